@@ -89,11 +89,12 @@ def run_property(prop, tier):
                 if n:
                     f["_hits"] = f.get("_hits", 0) + n
             # vacuity guards
+            # (a run with violations is not vacuous: the code under test may be the reason an outcome is missing)
             for need in fam.get("need_classes", []):
-                if fr.classes.get(need, 0) == 0:
+                if fr.classes.get(need, 0) == 0 and not fr.viol:
                     raise ToolError("vacuous run: family %s/%s produced no '%s' outcome" % (fam["name"], b, need))
             for need in fam.get("need_types", []):
-                if fr.types.get(str(need), 0) == 0:
+                if fr.types.get(str(need), 0) == 0 and not fr.viol:
                     raise ToolError("vacuous run: family %s/%s decoded no type %s" % (fam["name"], b, need))
 
     # 4. custom engines (table walk, coordinate sweep, CLI)
